@@ -341,6 +341,7 @@ async def c13_part(ctx) -> None:
 
         pairing.dispatcher_connect(fold_back)
         readable = [10, 11, 13, 14, 3]
+        write_only = [2, 12]  # a read request may name them: the accessory answers each with an error status, which is reported
         writable = {10: True, 11: 42, 12: 3, 14: 9}
         statuses = [0, 1, 2, 3, 4, 5, 6]
         idx = 0
@@ -378,6 +379,33 @@ async def c13_part(ctx) -> None:
                     else:
                         ctx.count("coap_reads_judged")
         acc.status_script = {}
+        # read requests that name a WRITE-ONLY characteristic, alone or among readable ones: every requested id comes back
+        for iids in [(2,), (12,), (2, 10), (10, 2), (10, 12, 11), (2, 12), (3, 2, 14)]:
+            idx += 1
+            if not ctx.mine(idx):
+                continue
+            ids = [(1, i) for i in iids]
+            ctx.case("coap-read-wo", iids, sample={"transport": "coap", "op": "read", "ids": ids, "write_only": [i for i in iids if i in write_only]}, kind="coap-read")
+            replay = {"t": "coap", "op": "read", "iids": list(iids), "vec": [0] * len(iids)}
+            try:
+                res = await asyncio.wait_for(pairing.get_characteristics(ids), 60)
+            except Exception as ex:  # noqa: BLE001
+                ctx.violation(f"coap-read-raises-{type(ex).__name__}", f"{ids} (write-only ids included): {ex!r}", replay)
+                continue
+            bad = None
+            for aid, iid in ids:
+                got = res.get((aid, iid))
+                if got is None:
+                    bad = f"requested {iid} is missing from the result"
+                elif iid in write_only and not got.get("status"):
+                    bad = f"write-only {iid} (accessory answered with an error status) reported as {got!r}"
+                elif iid not in write_only and "status" in got and got["status"]:
+                    bad = f"readable {iid} reported as {got!r}"
+            if bad:
+                ctx.violation("coap-read-result-differs", f"read {ids}: {bad}", replay)
+            else:
+                ctx.count("coap_reads_judged")
+                ctx.count("coap_write_only_reads_judged")
         witems = list(writable.items())
         for n in (1, 2, 3):
             for combo in itertools.permutations(witems, n) if n < 3 else [tuple(witems[:3]), tuple(witems[1:4])]:
